@@ -239,8 +239,10 @@ class TokCfg:
         return [n for n, _ in ref], text, ref
 
     def value_of(self, term, lexeme):
-        if term in ("STR", "YES"):
+        if term in ("STR", "YES", "EMPTY", "QSTR"):
             return lexeme[1:-1]
+        if term == "HERE":
+            return lexeme[5:-3]
         if term == "TEXT" or (term == "STRING" and lexeme.startswith("'''")):
             return lexeme[3:-3]
         return lexeme
@@ -258,16 +260,18 @@ TOKCFGS = [
     TokCfg(
         "words+keywords+comments",
         r"""(?P<SPACE>\s+)|(?P<COMMENT>\#[^#\n]*\#)|(?P<W>[a-z]+)|(?P<NUM>[0-9]+)|(?P<SEMI>;)|"(?P<STR>[^"]*)\"""",
-        ['WORD', 'IF', 'DO', 'n', ';', 'STR', 'PRAGMA', 'YES'],
+        ['WORD', 'IF', 'DO', 'n', ';', 'STR', 'PRAGMA', 'YES', 'EMPTY'],
         {'WORD': ['x', 'yy', 'iff', 'dodo', 'i', 'f', 'yes'], 'IF': ['if'], 'DO': ['do'], 'PRAGMA': ['#pragma#'],
-         'YES': ['"yes"'],
-         'n': ['0', '17', '007'], ';': [';'], 'STR': ['""', '"if"', '"a b"', '"#x#"', '"p\x0cq"', '"u\u2028v if"']},
+         'YES': ['"yes"'], 'EMPTY': ['""'],
+         'n': ['0', '17', '007'], ';': [';'], 'STR': ['" "', '"if"', '"a b"', '"#x#"', '"p\x0cq"', '"u\u2028v if"']},
         [" ", "\n", " # if do ; # ", "  ", "\n\n", " #1# #2# ", " #see\x0bpage 2 if# ", "\x0c"],
         synonyms={'NUM': 'n', 'SEMI': ';', 'W': 'WORD'},
         # (one keyword is keyed on a token name that is skipped by default: that comment is a real token)
         # (... and one on the string token: the string "yes" is a token of its own, the word yes is a word - and the
         # string "if" is a string)
-        keywords={('WORD', 'if'): 'IF', ('WORD', 'do'): 'DO', ('COMMENT', '#pragma#'): 'PRAGMA', ('STR', 'yes'): 'YES'},
+        # (... and the string with nothing in it is a keyword, too)
+        keywords={('WORD', 'if'): 'IF', ('WORD', 'do'): 'DO', ('COMMENT', '#pragma#'): 'PRAGMA', ('STR', 'yes'): 'YES',
+                  ('STR', ''): 'EMPTY'},
     ),
     TokCfg(
         "explicit-skip+comment-as-token",
@@ -347,18 +351,19 @@ TOKCFGS = [
         # start with) is a token of its own; words may hold other invisible characters
         r"(?P<SPACE>\s+)|(?P<EQ>=)|(?P<MARK>\ufeff)|(?P<W>[^\s=\ufeff]+)",
         ['WORD', '=', 'MARK'],
-        {'WORD': ['a', '\u00e9t\u00e9', 'x\u200by', '\u2060z', '-', '#', "''"], '=': ['='], 'MARK': ['\ufeff']},
+        {'WORD': ['a', '\u00e9t\u00e9', 'x\u200by', '\u2060z', '-', '#', "''", '%', '100%', '%s', '%(x)d', '{0}'],
+         '=': ['='], 'MARK': ['\ufeff']},
         [" ", "\n", "  "],
         synonyms={'W': 'WORD', 'EQ': '='},
     ),
     TokCfg(
         "keyword-called-like-a-pattern",
         # the sign '!' and the word 'not' are two tokens: the pattern NOT is reported as '!', the keyword 'not' as NOT
-        r"(?P<SPACE>\s+)|(?P<NOT>!)|(?P<W>[a-z]+)|(?P<EQ>=)",
-        ['WORD', '!', 'NOT', '='],
-        {'WORD': ['a', 'bc', 'no', 'nott'], '!': ['!'], 'NOT': ['not'], '=': ['=']},
+        r"(?P<SPACE>\s+)|(?P<NOT>!)|(?P<W>[a-z]+)|(?P<EQ>=)|(?P<PCT>%)",
+        ['WORD', '!', 'NOT', '=', '%'],
+        {'WORD': ['a', 'bc', 'no', 'nott'], '!': ['!'], 'NOT': ['not'], '=': ['='], '%': ['%']},
         [" ", "\n", "  "],
-        synonyms={'NOT': '!', 'W': 'WORD', 'EQ': '='},
+        synonyms={'NOT': '!', 'W': 'WORD', 'EQ': '=', 'PCT': '%'},
         keywords={('WORD', 'not'): 'NOT'},
     ),
     TokCfg(
@@ -371,6 +376,40 @@ TOKCFGS = [
         [" ", "\n", " // note = a\n", " /* x\n = y */ ", "//\n", " /**/ ", " // a /* b\n", "  "],
         synonyms={'COMMENT_EOL': 'COMMENT', 'W': 'WORD', 'EQ': '='},
         span_matchers={'COMMENT': r"(?P<END_COMMENT>(.|\n)*?)\*/"},
+    ),
+    TokCfg(
+        "quoted-strings-over-several-lines",
+        # a string runs to the next quote that has no backslash in front of it - on this line or on a later one (the
+        # user's body pattern is tried from the place where the string stands, line by line)
+        r'(?P<SPACE>\s+)|(?P<Q>")|(?P<W>[a-z]+)|(?P<EQ>=)',
+        ['QSTR', 'WORD', '='],
+        {'QSTR': ['"x y"', '""', '"ab\\"cd\nef"', '"p\\\\"', '"a\\"\n\\"b = c"', '"\\"\n"'], 'WORD': ['a', 'bc'], '=': ['=']},
+        [" ", "\n", "  "],
+        synonyms={'Q': 'QSTR', 'W': 'WORD', 'EQ': '='},
+        span_matchers={'Q': r'(?P<END_Q>([^"\\]|\\.)*)"'},
+    ),
+    TokCfg(
+        "inline-flag-in-the-tokenizer-pattern",
+        # the tokenizer pattern switches case-insensitive matching on for itself; the pattern that ends a here-document
+        # is another pattern: it ends at EOT in capitals only
+        r"(?i)(?P<SPACE>\s+)|(?P<HD><<eot)|(?P<W>[a-z]+)|(?P<EQ>=)",
+        ['HERE', 'WORD', '='],
+        {'HERE': ['<<eot x EOT', '<<EOT a eot b EOT', '<<eot\neot\nEOT', '<<EoTEOT'], 'WORD': ['a', 'Bc', 'EOT'], '=': ['=']},
+        [" ", "\n", "  "],
+        synonyms={'HD': 'HERE', 'W': 'WORD', 'EQ': '='},
+        span_matchers={'HD': r"(?P<END_HD>.*?)EOT"},
+    ),
+    TokCfg(
+        "comments-with-the-documented-pattern",
+        # the body pattern of block comments is the one the package's documentation shows: it does not run over a '*/'.
+        # Tried from where the comment stands, it cannot end a line at '**/' (the second star is no '*' followed by
+        # something else): such a comment goes on to the next '*/' it can reach that way
+        r"(?P<SPACE>\s+)|(?P<COMMENT_ML>/\*)|(?P<W>[a-z]+)|(?P<EQ>=)",
+        ['WORD', '='],
+        {'WORD': ['a', 'bc'], '=': ['=']},
+        [" ", "\n", " /* x */ ", " /* a **/ bc\n /* c */ ", " /* = **/\n*/ ", "/* * */", "  "],
+        synonyms={'COMMENT_ML': 'COMMENT', 'W': 'WORD', 'EQ': '='},
+        span_matchers={'COMMENT_ML': r"(?P<END_COMMENT>(\*[^/]|[^*])*)\*/"},
     ),
     TokCfg(
         "nine-letters",
